@@ -857,7 +857,7 @@ def check_C07(replay=None):
     chk = Check("C07")
     chk.rule = ("case = source file (boundary-value matrix of C04, an out-of-range label reference at every statement position for every PC-relative instruction, stack-mnemonic programs, catalogue) x feature flag value; "
                 "`lace check`, `lace compile`, `lace run` of the real binary are run on it (every program halts at once); their verdicts must all equal Assembler!Accepts and none may panic. distinct = (file, flag) pairs")
-    chk.assumptions = ["run's verdict: exit status 1 = diagnostic from the assembler (0 = ran and halted, 0xEE = assembled but the image does not fit at its origin)", "watch re-checks share assemble() with check; its event delivery is not driven here"]
+    chk.assumptions = ["run's verdict: exit status 1 = diagnostic from the assembler (0 = ran and halted, 0xEE = assembled but the image does not fit at its origin)", "`lace watch` is driven through one real session of in-place rewrites; a re-check that is not observed in time is recorded as such, never counted as agreement"]
     vlib.build(need_cli=True)
     thorough = chk.tier == "thorough"
     for cfg in ["MC_Assembler_nostack.cfg"] + (["MC_Assembler.cfg"] if thorough else []):
@@ -1096,7 +1096,7 @@ def check_C19(replay=None):
     chk.rule = ("case = sequence of 3-7 sources (valid; failing in the lexer; failing after labels were recorded: duplicate label, undefined reference, out-of-range operand at the end; sharing label names with the predecessor) "
                 "assembled one after the other on ONE thread with reset_state() in between, the whole sequence twice; every result (verdict, origin, words, rendered diagnostic) must equal both Assembler.tla's answer for that text "
                 "and the result of assembling the same text on a fresh thread. distinct = assemblies")
-    chk.assumptions = ["the watch closure itself (hotwatch event delivery) is not driven; it calls the same assemble + reset_state + reclaim sequence"]
+    chk.assumptions = ["the watch closure itself is driven by C07's watch session (label-reusing texts); here the same assemble + reset_state + reclaim sequence runs in-process"]
     vlib.build()
     if replay:
         return _asm_replay(chk, replay)
